@@ -52,6 +52,21 @@ pub fn text_parse(data: &[u8]) {
     let Ok(text) = std::str::from_utf8(data) else {
         return;
     };
+    // parse time doubles with every level of parentheses (DESIGN.md section 13): keep the campaign moving
+    let (mut depth, mut deepest) = (0usize, 0usize);
+    for c in text.chars() {
+        match c {
+            '(' => {
+                depth += 1;
+                deepest = deepest.max(depth);
+            }
+            ')' => depth = depth.saturating_sub(1),
+            _ => {}
+        }
+    }
+    if deepest > 9 {
+        return;
+    }
     let case = json!({"src": "libfuzzer", "text": text});
     let mut stats = Stats::default();
     if let Verdict::Fail(f) = props::c03::C03.check_case(&case, &mut stats) {
